@@ -89,7 +89,7 @@ def strip_obs(o):
     return {k: v for k, v in o.items() if k != "state"}
 
 
-def run_program(prog: dict, steps: list[dict], pid, want_inputs=True) -> list[dict]:
+def run_program(prog: dict, steps: list[dict], pid, want_inputs=True, jit=False) -> list[dict]:
     """build the real model, apply the positions, observe; one case per observation point"""
     import liesel.goose as gs
     cases = []
@@ -108,7 +108,8 @@ def run_program(prog: dict, steps: list[dict], pid, want_inputs=True) -> list[di
         prev = o["state"]
         for k, st in enumerate(steps):
             kit.apply_position(B, st["pos"], st["mode"] == "manual")
-            o = kit.observe(B, iface, prev_state=prev, pos=st["pos"], want_inputs=want_inputs and not prog["f32"])
+            o = kit.observe(B, iface, prev_state=prev, pos=st["pos"], want_inputs=want_inputs and not prog["f32"],
+                            jit=jit and k == len(steps) - 1)
             cases.append({"pid": pid, "k": k + 1, "prog": prog, "positions": steps[:k + 1], "mode": st["mode"],
                           "obs": strip_obs(o), "flip": None})
             prev = o["state"]
@@ -173,8 +174,11 @@ def generate(ctx):
             prog = kit.gen_hier(rnd, rnd.randint(2, 7 if ctx.quick else 10))
         plan.append((prog, kit.gen_positions(rnd, prog, rnd.choice([0, 1, 2, 3])), "random"))
     cases = []
+    njit, jit_limit = 0, (6 if ctx.quick else 40)
     for pid, (prog, steps, stratum) in enumerate(plan):
-        cs = run_program(prog, steps, pid)
+        jit = bool(steps) and njit < jit_limit and pid % 3 == 0
+        njit += jit
+        cs = run_program(prog, steps, pid, jit=jit)
         ctx.hist("program." + stratum)
         for f in features(prog):
             ctx.hist("feature." + f)
@@ -204,6 +208,8 @@ def generate(ctx):
         "float rounding bounded by the explicit tolerance in the shard lemmas",
     ]
     ctx.tested_not_proved += [
+        f"jax.jit(LieselInterface.update_state) shows the same three totals as the eager model on {njit} programs "
+        "(included among the readings the shard lemmas compare; jit = identity is not proved)",
         "tfp log-densities other than scalar Normal/Gamma/InverseGamma (Poisson, degenerate MVN, Softplus-transformed): "
         "compared with scipy/numpy closed forms by the oracle only",
         "ln Gamma(a) for concentrations that are not in {1/2,1,3/2,2,5/2,3} is supplied by Python's math.lgamma in the R-lemmas",
